@@ -213,11 +213,11 @@ func (t *tfunc) assignedOuter(nodes ...ast.Node) []types.Object {
 	info := t.info()
 	set := map[types.Object]bool{}
 	var lo, hi token.Pos
-	for i, n := range nodes {
-		if n == nil {
-			continue
+	for _, n := range nodes {
+		if n == nil || !n.Pos().IsValid() {
+			continue // synthesised statements carry no position
 		}
-		if i == 0 || n.Pos() < lo || lo == 0 {
+		if lo == 0 || n.Pos() < lo {
 			lo = n.Pos()
 		}
 		if n.End() > hi {
@@ -1128,6 +1128,36 @@ func (t *tfunc) invariant(e ast.Expr, assigned []types.Object) bool {
 	return ok
 }
 
+// elemUse: is the counter io only used to index one loop-invariant slice in the nodes?
+func (t *tfunc) elemUse(nodes []ast.Stmt, io types.Object, assigned []types.Object) (xs ast.Expr, elemOnly bool, nuse int) {
+	info := t.info()
+	elemOnly = true
+	var visit func(n ast.Node) bool
+	visit = func(n ast.Node) bool {
+		switch x := n.(type) {
+		case *ast.IndexExpr:
+			if id, ok := ast.Unparen(x.Index).(*ast.Ident); ok && info.Uses[id] == io {
+				if _, isSlice := typeOf(t.pi, x.X).Underlying().(*types.Slice); isSlice && (xs == nil || src(xs) == src(x.X)) &&
+					t.invariant(x.X, assigned) && t.usesObj(x.X, io) == 0 {
+					xs = x.X
+					nuse++
+					ast.Inspect(x.X, visit)
+					return false
+				}
+			}
+		case *ast.Ident:
+			if info.Uses[x] == io {
+				elemOnly = false
+			}
+		}
+		return true
+	}
+	for _, n := range nodes {
+		ast.Inspect(n, visit)
+	}
+	return
+}
+
 func (t *tfunc) forStmt(v *ast.ForStmt, c *ctx, k func() block) block {
 	info := t.info()
 	init, ok := v.Init.(*ast.AssignStmt)
@@ -1157,6 +1187,16 @@ func (t *tfunc) forStmt(v *ast.ForStmt, c *ctx, k func() block) block {
 	cond, ok := ast.Unparen(v.Cond).(*ast.BinaryExpr)
 	if !ok {
 		t.bad(v, "loop condition")
+	}
+	// `for …; <counter test> && <guard>; …` is the counter loop whose body starts with `if !<guard> { break }`
+	body := v.Body.List
+	if cond.Op == token.LAND {
+		if inner, ok := ast.Unparen(cond.X).(*ast.BinaryExpr); ok {
+			guard := &ast.IfStmt{Cond: &ast.UnaryExpr{Op: token.NOT, X: cond.Y},
+				Body: &ast.BlockStmt{List: []ast.Stmt{&ast.BranchStmt{Tok: token.BREAK}}}}
+			body = append([]ast.Stmt{guard}, body...)
+			cond = inner
+		}
 	}
 	op, bound := cond.Op, cond.Y
 	if id, ok := ast.Unparen(cond.X).(*ast.Ident); !ok || info.Uses[id] != io {
@@ -1196,30 +1236,7 @@ func (t *tfunc) forStmt(v *ast.ForStmt, c *ctx, k func() block) block {
 		t.bad(v, "loop shape (counter direction / comparison)")
 	}
 	// element loop: the counter is only used to index one slice that does not change
-	var xs ast.Expr
-	elemOnly := true
-	nuse := 0
-	var visit func(n ast.Node) bool
-	visit = func(n ast.Node) bool {
-		switch x := n.(type) {
-		case *ast.IndexExpr:
-			if id, ok := ast.Unparen(x.Index).(*ast.Ident); ok && info.Uses[id] == io {
-				if _, isSlice := typeOf(t.pi, x.X).Underlying().(*types.Slice); isSlice && (xs == nil || src(xs) == src(x.X)) &&
-					t.invariant(x.X, assigned) && t.usesObj(x.X, io) == 0 {
-					xs = x.X
-					nuse++
-					ast.Inspect(x.X, visit)
-					return false
-				}
-			}
-		case *ast.Ident:
-			if info.Uses[x] == io {
-				elemOnly = false
-			}
-		}
-		return true
-	}
-	ast.Inspect(v.Body, visit)
+	xs, elemOnly, nuse := t.elemUse(body, io, assigned)
 	it := t.g.leanType(io.Type())
 	if elemOnly && nuse > 0 {
 		et := t.g.leanType(typeOf(t.pi, xs).Underlying().(*types.Slice).Elem())
@@ -1237,9 +1254,9 @@ func (t *tfunc) forStmt(v *ast.ForStmt, c *ctx, k func() block) block {
 		id := t.nloop + 1
 		t.elem[io] = elemSubst{src(xs), fmt.Sprintf("e%d", id)}
 		defer delete(t.elem, io)
-		return t.loop(list, et, func(string) block { return nil }, v.Body.List, nil, c, k)
+		return t.loop(list, et, func(string) block { return nil }, body, nil, c, k)
 	}
-	return t.loop(rng, it, func(e string) block { return t.bind(io, e) }, v.Body.List, nil, c, k)
+	return t.loop(rng, it, func(e string) block { return t.bind(io, e) }, body, nil, c, k)
 }
 
 func (t *tfunc) rangeStmt(v *ast.RangeStmt, c *ctx, k func() block) block {
@@ -1262,6 +1279,16 @@ func (t *tfunc) rangeStmt(v *ast.RangeStmt, c *ctx, k func() block) block {
 	case *types.Slice:
 		et := t.g.leanType(u.Elem())
 		xs := t.expr(v.X, nil)
+		if !blank(v.Key) && blank(v.Value) {
+			// `for i := range xs { … xs[i] … }` visits the elements, like `for _, x := range xs`
+			io := info.Defs[v.Key.(*ast.Ident)]
+			assigned := t.assignedOuter(v.Body)
+			if ex, only, n := t.elemUse(v.Body.List, io, assigned); only && n > 0 && src(ex) == src(v.X) {
+				t.elem[io] = elemSubst{src(ex), fmt.Sprintf("e%d", t.nloop+1)}
+				defer delete(t.elem, io)
+				return t.loop(xs, et, func(string) block { return nil }, v.Body.List, nil, c, k)
+			}
+		}
 		if blank(v.Key) {
 			return t.loop(xs, et, func(e string) block {
 				if blank(v.Value) {
